@@ -65,6 +65,12 @@ func cliCase(c *Case) (*Case, bool) {
 		}
 	case "samvariants":
 		a = []string{"sam", "variants", "-s", put("in.sam", "sam"), "-r", put("ref.fasta", "ref"), "-a", put("anno."+o.AnnoSuffix, "anno"), "-t", th}
+		if o.Start > 0 {
+			a = append(a, "--start", strconv.Itoa(o.Start))
+		}
+		if o.End > 0 {
+			a = append(a, "--end", strconv.Itoa(o.End))
+		}
 		if o.Aggregate {
 			a = append(a, "--aggregate", "--threshold", strconv.FormatFloat(o.Threshold, 'g', -1, 64))
 		}
